@@ -102,6 +102,11 @@ def make_merge_check(pid):
         if pid == 'C05':
             from . import coll_family
             coll_family.fault_collections_check(oc, tier)
+        if pid == 'C06':
+            # "nothing skipped silently" also holds for what a collection does with re-used readers and late messages
+            from . import coll_family
+            coll_family.completed_collections_check(oc, pid)
+            coll_family.reuse_and_remerge_check(oc, pid)
         if pid == 'C07':
             # the collection's `completed`, before and after its merge, and collections over re-used readers
             from . import coll_family
